@@ -556,10 +556,9 @@ class Parser:
     def parse_prefix_expression(self, stream: TokenStream) -> FilterExpression:
         tok = stream.next_token()
         assert tok.kind == TOKEN_NOT
-        return PrefixExpression(
-            operator="!",
-            right=self.parse_filter_selector(stream, precedence=self.PRECEDENCE_PREFIX),
-        )
+        right = self.parse_filter_selector(stream, precedence=self.PRECEDENCE_PREFIX)
+        self._raise_for_uncompared(right, tok)
+        return PrefixExpression(operator="!", right=right)
 
     def parse_infix_expression(
         self, stream: TokenStream, left: FilterExpression
@@ -572,6 +571,10 @@ class Parser:
         if self.env.well_typed and operator in self.COMPARISON_OPERATORS:
             self._raise_for_non_comparable_function(left, tok)
             self._raise_for_non_comparable_function(right, tok)
+
+        if operator in ("&&", "||"):
+            self._raise_for_uncompared(left, tok, literals=False)
+            self._raise_for_uncompared(right, tok, literals=False)
 
         if operator not in self.INFIX_LITERAL_OPERATORS:
             if isinstance(left, (Literal, Nil)):
@@ -750,6 +753,27 @@ class Parser:
                 raise JSONPathSyntaxError(str(err).split(":")[1], token=token) from None
 
         return token.value
+
+    def _raise_for_uncompared(
+        self, expr: FilterExpression, token: Token, *, literals: bool = True
+    ) -> None:
+        """Raise if _expr_, an operand of a logical operator, must be compared."""
+        if self.env.well_typed and isinstance(expr, FunctionExtension):
+            func = self.env.function_extensions.get(expr.name)
+            if (
+                isinstance(func, FilterFunction)
+                and func.return_type == ExpressionType.VALUE
+            ):
+                raise JSONPathTypeError(
+                    f"result of {expr.name}() must be compared", token=token
+                )
+
+        if literals and isinstance(expr, (Literal, Nil)):
+            raise JSONPathSyntaxError(
+                "filter expression literals outside of "
+                "function expressions must be compared",
+                token=token,
+            )
 
     def _raise_for_non_comparable_function(
         self, expr: FilterExpression, token: Token
